@@ -311,6 +311,9 @@ def protocol_signature(repo, f):
         if isinstance(n, ast.IfExp) and isinstance(n.body, ast.UnaryOp) and isinstance(n.body.operand, ast.Constant) and n.body.operand.value == 1 \
                 and any(isinstance(c, ast.Call) and isinstance(c.func, ast.Attribute) and c.func.attr == 'nelement' for c in ast.walk(n.test)):
             sig['empty_fallback'] = True
+            for x in ast.walk(n.orelse):
+                if isinstance(x, ast.Attribute) and x.attr == 'shape' and isinstance(x.value, ast.Name):
+                    sig.setdefault('fallback_of', set()).add(x.value.id)
     return sig
 
 
@@ -338,6 +341,15 @@ def rule_bcast(repo, tier, pid='C06'):
                 res.add(Finding(pid + '.BCAST', f, '%sType.%s does not view its result to out_shape + (dim,)' % (G, meth), construct='view'))
             elif not sig['empty_fallback']:
                 res.add(Finding(pid + '.BCAST', f, '%sType.%s lost the empty-batch fallback of the last dimension' % (G, meth), construct='empty'))
+            else:
+                # the width an EMPTY result keeps is that of the operand the result has the type of: the point / algebra element for Act, Adj, AdjT, Jinvp (second
+                # argument), either factor for Mul
+                pp_ = f.pos_params
+                okw = set(pp_[2:3]) if meth != 'Mul' else set(pp_[1:3])
+                wrong = sorted(sig.get('fallback_of', set()) - okw)
+                if wrong and len(pp_) >= 3:
+                    res.add(Finding(pid + '.BCAST', f, '%sType.%s: the empty-batch fallback takes the last dimension of `%s`; an empty result of %s has the width of `%s`' % (
+                        G, meth, wrong[0], meth, pp_[2]), construct='empty width'))
     # BSHAPE
     OPM = 'pypose.lietensor.operation'
     f = repo.func(OPM, 'broadcast_inputs')
